@@ -441,7 +441,8 @@ fn colour_cases(ctx: &mut Ctx, maxwords: u32) {
                 parts.push(match style {
                     0 => wd.to_string(),
                     1 => format!("\x1b[31m{}\x1b[0m", wd),
-                    _ => format!("\x1b]8;;http://x\x1b\\{}\x1b]8;;\x1b\\", wd),
+                    // hyperlink whose URI holds a backslash that is NOT the terminator (a Windows path): only ESC \\ or BEL end an OSC sequence
+                    _ => format!("\x1b]8;;file://C:\\t\x1b\\{}\x1b]8;;\x1b\\", wd),
                 });
             }
             if col != 0 {
